@@ -371,6 +371,7 @@ _NEAR = {
     'cosh': ('mpf_cosh', None, 'one', lambda s: +1),
     'asinh': ('mpf_asinh', None, 'x', lambda s: -1),
     'log1': ('mpf_log', None, 'x', lambda s: +1 if s else -1),       # argument 1 + x; log(1+x) = x - x^2/2 + ...
+    'exp1': ('mpf_exp', None, '1+x', lambda s: +1),                  # exp(x) = (1+x) + x^2/2 + ... for 1+x representable (needs 'mag')
 }
 
 
@@ -383,7 +384,7 @@ def near_point(p):
     from vlib.oracle import ref_round
     fn, prec, rnd, sign, bc = p['fn'], p['prec'], p['rnd'], p['sign'], p['bc']
     kname, _, base, dirf = _NEAR[fn]
-    ob = Ob(wbump(p, bc + 2 * prec + 90), timeout_s=p.get('_t', 60))
+    ob = Ob(wbump(p, bc + 2 * prec + 90 + (2 * (prec + 40) if 'mag' in p else 0)), timeout_s=p.get('_t', 60), mul_precise_bits=4096, max_unroll=60)
     if fn == 'log1':
         # t = +-man * 2**-k (k concrete), x = 1 + t exactly
         k = p['k']
@@ -399,13 +400,28 @@ def near_point(p):
         if k - bc < prec + 24:
             raise Unsupported('shape not in the tiny regime')
     else:
-        lo = -prec - 24 - p.get('span', 40)
-        e = ob.int('x_exp', lo - bc, -prec - 24 - bc)
+        if 'mag' in p:
+            # a concrete binary magnitude: |x| in [2**(mag-1), 2**mag); must satisfy 2*|mag| > prec + 8 so that the deviation of
+            # the function from its leading term is far below an ulp (the regime between the perturbation shortcut and the
+            # point where the series resolves the deviation)
+            if 2 * (-p['mag']) <= prec + 3:
+                raise Unsupported('magnitude too large for the infinitesimal-deviation oracle')
+            e = p['mag'] - bc
+        else:
+            lo = -prec - 24 - p.get('span', 40)
+            e = ob.int('x_exp', lo - bc, -prec - 24 - bc)
         x = ob.mpf('x', bc, exp=e, sign=sign)
         arg, bt = x, x
     outs = ob.run(getattr(libelefun, kname), [arg, prec, rnd])
     d = dirf(sign)
-    if base == 'one':
+    if base == '1+x':
+        if 'mag' not in p:
+            raise Unsupported('exp1 needs a concrete magnitude')
+        k = bc - p['mag']                      # x = +-man * 2**-k
+        one = B(1 << k)
+        bman = (one - zt(x[1])) if sign else (one + zt(x[1]))
+        bexp, bbc, neg = B(-k), (k if sign else k + 1), FALSE
+    elif base == 'one':
         bman, bexp, bbc, neg = B(1), B(0), 1, FALSE
     else:
         bman, bexp, bbc, neg = zt(bt[1]), zt(bt[2]), bc, z3.BoolVal(bool(sign))
@@ -448,14 +464,14 @@ def near_point_concrete(p, m):
         arg = libmpf.mpf_add(libmpf.fone, t, 0)
         bt = t
     else:
-        arg = bt = (sign, man, m['x_exp'], bc)
+        arg = bt = (sign, man, m['x_exp'] if 'mag' not in p else p['mag'] - bc, bc)
     r = getattr(libelefun, kname)(arg, prec, rnd)
-    b = Fraction(1) if base == 'one' else O.frac_of(bt)
+    b = Fraction(1) if base == 'one' else (1 + O.frac_of(bt)) if base == '1+x' else O.frac_of(bt)
     d = dirf(sign)
     # exact value = b * (1 + d * tiny) in magnitude: any tiny below 2**(-prec-20) gives the same rounding
     tiny = abs(b) * Fraction(1, 1 << (prec + 40))
     exact = b + (tiny if (d > 0) == (b > 0) else -tiny)
-    if bc <= prec or base == 'one':
+    if bc <= prec or base in ('one', '1+x'):
         ok, det = O.check_rounded(r, exact, prec, rnd)
     else:
         got = O.frac_of(r)
@@ -465,7 +481,7 @@ def near_point_concrete(p, m):
         ok = O.canonical_concrete(tuple(r), prec) and side and abs(got - exact) <= 4 * ulp
         det = 'got %s, which is %s' % (got, 'on the wrong side of the exact value' if not side else 'more than 4 ulp away / not canonical')
     return ok, '%s at %r (prec %d, rounding %s): the exact value is %s %s an infinitesimal; %s' % (
-        'log' if fn == 'log1' else fn, arg, prec, rnd, '1' if base == 'one' else 'x', 'plus' if (d > 0) == (b > 0) else 'minus', det[:300])
+        'log' if fn == 'log1' else 'exp' if fn == 'exp1' else fn, arg, prec, rnd, '1' if base == 'one' else '1+x' if base == '1+x' else 'x', 'plus' if (d > 0) == (b > 0) else 'minus', det[:300])
 
 
 # ------------------------------------------------------------------------------ the libmp wrapper honours prec= / dps= / rounding= on every path
@@ -558,3 +574,121 @@ def wrap_kw_concrete(p, m):
         return None, 'UNCONFIRMED: no sampled argument reproduces'
     finally:
         mp.prec = 53
+
+
+# ------------------------------------------------------------------------------ atan2: directed rounding relative to the kernels' contracts
+def atan2_directed(p):
+    """mpf_atan2(y, x, prec, rnd) for finite nonzero y, x and a directed mode, with the kernels replaced by their contracts:
+    mpf_atan(q, p', r') returns the rounding (mode r') of an ARBITRARY irrational value Z + theta (0 < theta < 1, in units of
+    2**-(prec+16)) with the sign of q; mpf_pi(p', r') the rounding of an arbitrary irrational F + phi; mpf_div is the real code
+    (its mode is observed).  The exact atan(y/x) relates to the stub's atan(q) only through monotonicity: |q| <= |y/x| (quotient
+    rounded toward zero) gives |atan(y/x)| >= |atan(q)|, and conversely.  Assertion: the result lies on the side of the exact
+    atan2(y, x) that `rnd` prescribes -- for every value the kernels may legitimately return.  A satisfiable query is an
+    abstract alarm (the wrapper is unsound relative to its kernels' contracts); it is confirmed on the real code by evaluating
+    atan2 on a family of small rational points against a 400-bit reference."""
+    from mpmath.libmp import libelefun, libmpf
+    from pysym.engine import NORMAL
+    import operator
+    prec, rnd, xs, ys = p['prec'], p['rnd'], p['xsign'], p.get('ysign', 0)
+    S = prec + 16
+    ob = Ob(wbump(p, S + 40), timeout_s=p.get('_t', 60), models=__import__('pysym.mpmodels', fromlist=['x']).mp_models(contract_divmod=True, contract_sqrt=False))
+    G.stats['DIV_PRECISE_BITS'] = 4096
+    Z = ob.int('Z', 1 << (S - 2), (1 << (S - 1)) - 2)             # |atan(q)| = (Z + theta) * 2**-S  in [1/4, 1/2)
+    Zt = ob.int('Zt', 1 << (S - 2), (1 << (S - 1)) - 2)           # |atan(y/x)| = (Zt + theta') * 2**-S
+    F = ob.int('F', 3 << (S - 1), (4 << (S - 1)) - 2)             # pi = (F + phi) * 2**-S in [1.5, 2) (arbitrary constant)
+    info = {'div': None, 'atan': [], 'pi': []}
+    real_div = libmpf.mpf_div
+
+    def m_div(eng, st, a, k, fr):
+        r = a[3] if len(a) > 3 else k.get('rnd', 'd')
+        info['div'] = r
+        return eng.call_py(st, real_div, a, k, (fr.depth + 1) if fr is not None else 0)
+
+    def mag_floor(r, negative):
+        return r == 'd' or (r == 'f' and not negative) or (r == 'c' and negative)
+
+    def m_atan(eng, st, a, k, fr):
+        q = a[0]
+        pr = a[1]
+        r = a[2] if len(a) > 2 else k.get('rnd', 'd')
+        if isinstance(pr, SInt) or r == 'n':
+            raise Unsupported('atan stub: symbolic precision or nearest mode')
+        negq = q[0]
+        if isinstance(negq, SInt):
+            raise Unsupported('atan stub: symbolic sign')
+        info['atan'].append(r)
+        man = Z if mag_floor(r, bool(negq)) else V.binop(operator.add, Z, 1)
+        return eng.call(st, libmpf.from_man_exp, [V.neg(man) if negq else man, -S, pr, r], {}, fr)
+
+    def m_pi(eng, st, a, k, fr):
+        pr = a[0]
+        r = a[1] if len(a) > 1 else k.get('rnd', 'd')
+        if isinstance(pr, SInt) or r == 'n':
+            raise Unsupported('pi stub: symbolic precision or nearest mode')
+        info['pi'].append(r)
+        man = F if mag_floor(r, False) else V.binop(operator.add, F, 1)
+        return eng.call(st, libmpf.from_man_exp, [man, -S, pr, r], {}, fr)
+    ob.eng.models[libmpf.mpf_div] = m_div
+    ob.eng.models[libelefun.mpf_atan] = m_atan
+    ob.eng.models[libelefun.mpf_pi] = m_pi
+    y = ob.mpf('y', 4, sign=ys, exp=ob.int('y_exp', -6, 6))
+    x = ob.mpf('x', 4, sign=xs, exp=ob.int('x_exp', -6, 6))
+    n0 = len(ob.assume)
+    outs = ob.run(libelefun.mpf_atan2, [y, x, prec, rnd])
+    G.SIDE.extend(ob.assume[n0:])
+    # the final mode refers to the signed result; for y < 0 mpmath evaluates -atan2(-y, x) with the mirrored mode, so the
+    # kernels see y > 0 and the mirrored mode; the truth below is stated for the signed result
+    neg_res = bool(ys)
+
+    def good(val, st):
+        if not (isinstance(val, tuple) and len(val) == 4):
+            return False
+        dr = info['div']
+        if dr is None:
+            return False
+        # relation between |atan(y/x)| and |atan(q)| from the quotient's rounding (the kernels see |y|)
+        qneg = bool(xs)
+        rel = (zt(Zt) >= zt(Z)) if mag_floor(dr, qneg) else (zt(Zt) <= zt(Z)) if dr != 'n' else TRUE
+        rs, rm, re, rb = [zt(c) for c in val]
+        dd = re + B(S)
+        Rint = rm << dd
+        inrange = z3.And(dd >= B(0), dd <= B(S + 4), z3.LShR(Rint, dd) == rm)
+        if not xs:
+            lo_true, hi_true = zt(Zt), zt(Zt) + B(1)                       # |value| in (Zt, Zt+1)
+        else:
+            lo_true, hi_true = zt(F) - zt(Zt) - B(1), zt(F) - zt(Zt) + B(1)  # pi - |atan|: in (F-Zt-1, F-Zt+1)
+        away = {'f': neg_res, 'c': not neg_res, 'd': False, 'u': True}[rnd]
+        side = z3.UGE(Rint, hi_true) if away else z3.ULE(Rint, lo_true)
+        return [z3.And(canonical(val, prec), (rs == B(1)) == z3.BoolVal(neg_res), inrange), z3.Implies(z3.And(rel, inrange), side)]
+    return finish(ob, ob.prove(outs, good))
+
+
+def atan2_directed_concrete(p, m):
+    """dynamic confirmation of the abstract alarm on the real code: atan2 at small dyadic points, 400-bit reference"""
+    import mpmath
+    from fractions import Fraction
+    from mpmath.libmp import libelefun, libmpf
+    prec, rnd, xs, ys = p['prec'], p['rnd'], p['xsign'], p.get('ysign', 0)
+    mp = mpmath.mp
+    old = mp.prec
+    tried = 0
+    try:
+        for P in (prec, 24, 53):
+            for a in range(1, 120, 2):
+                for b in (3, 7, 11, 29, 101, 255):
+                    yv = (ys, a, -3, a.bit_length())
+                    xv = (xs, b, -2, b.bit_length())
+                    r = libelefun.mpf_atan2(yv, xv, P, rnd)
+                    mp.prec = 400
+                    t = mp.atan2(mp.make_mpf(yv), mp.make_mpf(xv))
+                    exact = O.frac_of(t._mpf_)
+                    mp.prec = old
+                    got = O.frac_of(r)
+                    tried += 1
+                    ok = {'f': got <= exact, 'c': got >= exact, 'd': abs(got) <= abs(exact), 'u': abs(got) >= abs(exact)}[rnd]
+                    # the reference is itself rounded at 400 bits: only report when the gap is far larger than that
+                    if not ok and abs(got - exact) > Fraction(1, 1 << 300):
+                        return False, 'mpf_atan2(%r, %r, %d, %r) = %s lies on the wrong side of atan2 = %s...' % (yv, xv, P, rnd, got, str(float(exact)))
+        return None, 'UNCONFIRMED: abstract alarm (wrapper unsound relative to kernel contracts), %d concrete points were on the right side' % tried
+    finally:
+        mp.prec = old
